@@ -164,7 +164,8 @@ Inductive event :=
 | EvIn (c : bytes)                         (* ReadFrom appended the chunk c *)
 | EvReadFrom (tot : N) (e : N)             (* ReadFrom returned (tot, e) *)
 | EvStats (w r : N)                        (* Stats returned *)
-| EvDT (t : bytes).                        (* GetDataType returned t *)
+| EvDT (t : bytes)                         (* GetDataType returned t *)
+| EvPanic.                                 (* the call panicked: never produced by the model *)
 
 Definition null_or_empty (t : bytes) : bool := is_nil t || bytes_eqb t types_null.
 
